@@ -6,15 +6,17 @@
             trim choice the model returns a sample accepted by the result checker - for circuits in
             which no node lists a child twice; with a repeated child the sampler panics
             (C09_sample_t_wise_repeated_child_refuted, confirmed on the code: finding K36).
-   Partial: the fitness-guided variant (ExtendedDdnnf::sample_t_wise) is not modelled (finding K11).
+            the FITNESS-GUIDED sampler ExtendedDdnnf::sample_t_wise (Model/TwiseFitness.v) for t <= n:
+            C09_sample_t_wise_fitness_covers; refuted for t > n (finding K11):
+            C09_sample_t_wise_fitness_refuted_t_exceeds_n.
    Property theorems only; proofs in Proofs/TIterProof.v, TwiseOkProof.v, C09Pipeline.v, Twise*.v;
    status in bin/propcfg/C09.py. *)
 From Coq Require Import List ZArith Bool Lia Permutation Sorted.
 From DD Require Import Model.Circuit Model.Query Model.TIter
-  Model.TwiseCfg Model.TwiseMerge Model.TwisePipeline Model.TwiseSteps Spec.TwiseOk
+  Model.TwiseCfg Model.TwiseMerge Model.TwisePipeline Model.TwiseFitness Model.TwiseSteps Spec.TwiseOk
   Proofs.Semantics Proofs.CountsA Proofs.QueryDefs Proofs.DetCert Proofs.C03Proof
   Proofs.TIterProof Proofs.TwiseOkProof Proofs.C09Pipeline Proofs.TwiseBase Proofs.TwiseShuffle
-  Proofs.TwiseMain Props.C01 Props.C03.
+  Proofs.TwiseMain Proofs.TwiseFitMain Props.C01 Props.C03.
 Import ListNotations.
 
 (* ---------------- the iterator (full) ---------------- *)
@@ -279,8 +281,56 @@ Proof.
   split; vm_compute; reflexivity.
 Qed.
 
-(* The fitness-guided variant (ExtendedDdnnf::sample_t_wise: AttributeZippingMerger,
-   AttributeSimilarityMerger, cover_with_caching_sorted, complete_partial_configs_optimal) is NOT
-   modelled; finding K11 (KNOWN_FINDINGS.txt) shows that the corresponding statement is false for
-   t larger than the number of features.  C09_trim / C09_or_merge / C09_and_zip of the design are
-   the lemmas trim_ok (Proofs/TwiseMain.v), or_merge_spec (TwiseOr.v), merge_cov (TwiseAnd.v). *)
+(* ---------------- the fitness-guided variant ---------------- *)
+
+(* ExtendedDdnnf::sample_t_wise (Model/TwiseFitness.v: AttributeZippingMerger, AttributeSimilarityMerger,
+   cover_with_caching_sorted, trim_and_resample, complete_partial_configs_optimal = calc_best_config of
+   C20; objective values in Z): for every WFQ circuit without a repeated child, n >= 1 features,
+   root_count > 0, EVERY vector of objective values, every t <= n, every trim choice and every
+   shuffle, the sampler returns ResultWithSample S with twise_ok C n t S = true.  [full for t <= n] *)
+Theorem C09_sample_t_wise_fitness_covers : forall (C : circuit) (n t : nat) (vals : list Z),
+  WFQ C n -> nodup_children C = true ->
+  forall (trim_pick : list (list Z) -> list bool) (ord_shuf : list Z -> list Z),
+  (forall l, Permutation (ord_shuf l) l) ->
+  (1 <= n)%nat -> 0 < root_count C -> (t <= n)%nat ->
+  exists S, sample_t_wise_fit (build C n) t vals trim_pick ord_shuf = Some (WithSample S) /\
+            twise_ok C n t (map c_lits (s_iter S)) = true.
+Proof. exact sample_t_wise_fit_covers. Qed.
+Print Assumptions C09_sample_t_wise_fitness_covers.
+
+(* ... and it is FALSE for t > n (finding K11): on (x1 | -x1) & (x2 | -x2) - what the loader makes of
+   the d4 file `t 1 0` with 2 features - with t = 3 and objective values 1 1 the sampler answers
+   [1 2; -1 -2]: the valid interactions {1,-2} and {-1,2} are in no configuration.  The and-merge
+   draws the parts of a cross interaction from the literal lists with sizes min(len,k), min(len,t-k):
+   for t > n each candidate holds both polarities of a feature.  (The plain sampler covers them:
+   C09_sample_t_wise_covers has no bound on t.) *)
+Definition ex_free2 : circuit := [Lit 1; Lit (-1); Or [0; 1]%nat; Lit 2; Lit (-2); Or [3; 4]%nat; And [2; 5]%nat].
+Theorem C09_sample_t_wise_fitness_refuted_t_exceeds_n :
+  exists C n t vals (trim_pick : list (list Z) -> list bool) (ord_shuf : list Z -> list Z),
+    WFQ C n /\ nodup_children C = true /\ (1 <= n)%nat /\ 0 < root_count C /\ (n < t)%nat /\
+    (forall l, Permutation (ord_shuf l) l) /\
+    exists S, sample_t_wise_fit (build C n) t vals trim_pick ord_shuf = Some (WithSample S) /\
+              map c_lits (s_iter S) = [[1; 2]; [-1; -2]] /\
+              twise_ok C n t (map c_lits (s_iter S)) = false /\
+              twise_first_uncovered C n t (map c_lits (s_iter S)) = Some [1; -2].
+Proof.
+  exists ex_free2, 2%nat, 3%nat, [1; 1], (fun _ => []), (fun l => l).
+  split; [apply check_wf_WFQ; vm_compute; reflexivity|]. split; [vm_compute; reflexivity|].
+  split; [lia|]. split; [vm_compute; reflexivity|]. split; [lia|]. split; [intros l; apply Permutation_refl|].
+  eexists. split; [vm_compute; reflexivity|]. repeat split; vm_compute; reflexivity.
+Qed.
+Print Assumptions C09_sample_t_wise_fitness_refuted_t_exceeds_n.
+
+(* non-vacuity: the same circuit with t = 2 <= n *)
+Example C09_sample_t_wise_fitness_ex :
+  WFQ ex_free2 2 /\ nodup_children ex_free2 = true /\ 0 < root_count ex_free2 /\
+  option_map sres_configs (sample_t_wise_fit (build ex_free2 2) 2 [1; 1] (fun _ => []) (fun l => l))
+  = Some [[1; 2]; [-1; -2]; [1; -2]; [-1; 2]].
+Proof.
+  split; [apply check_wf_WFQ; vm_compute; reflexivity|]. split; [vm_compute; reflexivity|].
+  split; vm_compute; reflexivity.
+Qed.
+
+(* C09_trim / C09_or_merge / C09_and_zip of the design are the lemmas trim_ok (Proofs/TwiseMain.v),
+   or_merge_spec (TwiseOr.v), merge_cov (TwiseAnd.v); for the fitness variant merge_fit_cov
+   (TwiseFitMerge.v), or_merge_fit_spec (TwiseFitMain.v). *)
